@@ -125,7 +125,7 @@ func (m *c11) verify(r *rq) {
 			// (… or reached the client while it was waiting, whenever released)
 			found := false
 			for _, e := range events {
-				if e.Kind == sim.EvBrokerSend && e.Seq > start && e.Seq < end && len(e.Data) >= 2 && e.Data[0] == 0xd0 {
+				if e.Kind == sim.EvBrokerSend && e.Seq > start && e.Seq < end && strings.Contains(string(e.Data), "\xd0\x00") {
 					found = true
 				}
 				if e.Kind == sim.EvRead && e.Seq > start && e.Seq < end && strings.Contains(string(e.Data), "\xd0\x00") {
@@ -408,6 +408,29 @@ func TestC11Requests(t *testing.T) {
 						return h.IsDone(r.call) || len(h.ParkedGates()) > 0 || h.WritersParkedAny()
 					})
 				}
+			},
+			// a malformed PINGRESP while a Ping waits: the connection is reset,
+			// the Ping gets ErrBreak (nothing answered it)
+			"malformedPingresp": func(rt *rapid.T) {
+				c := h.Current()
+				if c == nil || !c.Accepted() {
+					rt.Skip("no connection")
+				}
+				var waiting *rq
+				for _, o := range m.reqs {
+					if o.kind == "ping" && !m.IsDone(o.call) {
+						waiting = o
+					}
+				}
+				if waiting == nil {
+					rt.Skip("no Ping waits")
+				}
+				b := rapid.SampledFrom([][]byte{{0xd0, 1, 0}, {0xd0, 2, 0, 0}}).Draw(rt, "bytes")
+				h.Act("malformed PINGRESP % x while call %d waits", b, waiting.call.N)
+				c.Send(b)
+				keepReading()
+				// (the Ping may not have been written yet: whether and how it
+				// returns is judged like any other call, by verify)
 			},
 			"unsolicited": func(rt *rapid.T) {
 				c := h.Current()
